@@ -22,7 +22,59 @@ import (
 	"strings"
 	"time"
 	// "code.google.com/p/rog-go/exp/deepcopy" // Broken
+	"reflect"
+	"sync"
 )
+
+// ruleCache holds parsed rules by id.  Dispatches read and fill it while
+// writers invalidate it, all concurrently, so it has its own mutex.  An entry
+// is only served for the stored rule body it was parsed from: an entry that a
+// dispatch fills while the rule is being replaced can then never be served
+// for the new rule.
+type ruleCache struct {
+	sync.Mutex
+	m map[string]cachedRule
+}
+
+type cachedRule struct {
+	src  map[string]interface{}
+	rule *Rule
+}
+
+func newRuleCache() *ruleCache {
+	return &ruleCache{m: make(map[string]cachedRule)}
+}
+
+func sameMap(a, b map[string]interface{}) bool {
+	return reflect.ValueOf(a).Pointer() == reflect.ValueOf(b).Pointer()
+}
+
+func (c *ruleCache) get(id string, src map[string]interface{}) *Rule {
+	c.Lock()
+	defer c.Unlock()
+	if e, have := c.m[id]; have && sameMap(e.src, src) {
+		return e.rule
+	}
+	return nil
+}
+
+func (c *ruleCache) put(id string, src map[string]interface{}, rule *Rule) {
+	c.Lock()
+	c.m[id] = cachedRule{src, rule}
+	c.Unlock()
+}
+
+func (c *ruleCache) drop(id string) {
+	c.Lock()
+	delete(c.m, id)
+	c.Unlock()
+}
+
+func (c *ruleCache) clear() {
+	c.Lock()
+	c.m = make(map[string]cachedRule)
+	c.Unlock()
+}
 
 type AddHookFn func(ctx *Context, state State, id string, fact Map, loading bool) error
 type RemHookFn func(ctx *Context, state State, id string) error
